@@ -37,7 +37,7 @@ func runC08(t *simrt.Tape, o Opts) Outcome {
 	s := simrt.Run(t, cfg, func(s *simrt.Sim) {
 		w = world.New(s, "C08")
 		st.Oracle = map[string]int{}
-		async := t.Choose(12, "async") == 1
+		async := t.Choose(scale(o, 12, 5), "async") == 1
 		gen := world.GenOpts{ForceCache: true, SmallCaps: true, NoSimple: t.Choose(4, "allowsimple") != 0, AllowTinyLFU: allowTinyLFU}
 		pol := world.GenPolicy(t, gen)
 		pol.Precision = []time.Duration{time.Second, time.Minute}[t.Choose(2, "prec")]
@@ -73,8 +73,8 @@ func runC08(t *simrt.Tape, o Opts) Outcome {
 			w.Advance(pol.Expire + time.Hour*25)
 		}
 		w.Drain()
-		nclients := 2 + t.Choose(5, "nclients")
-		opsPer := 2 + t.Choose(5, "opsper")
+		nclients := 2 + t.Choose(scale(o, 5, 7), "nclients")
+		opsPer := 2 + t.Choose(scale(o, 5, 10), "opsper")
 		if async {
 			nclients, opsPer = 2+t.Choose(2, "nclients"), 2+t.Choose(3, "opsper")
 		}
